@@ -63,7 +63,7 @@ func ExcludedRegions(id string) []string {
 func QuickRuns(id string) (int, int) {
 	switch id {
 	case "C02", "C03", "C09":
-		return 1500, 120
+		return 500, 120
 	case "C04":
 		return 1500, 120
 	case "C08":
